@@ -171,6 +171,12 @@ def run_sampling(h, P, N, G, method, strat):
     tp = h.count([accepted(h, "neg", "pos", s, t) for s in bp])
     fp = h.count([accepted(h, "neg", "pos", s, t) for s in bn])
     h.check("metrics of the sample equal direct counting", h.And(h.eq(got[0], tp), h.eq(got[1], len(bp) - tp), h.eq(got[2], fp), h.eq(got[3], len(bn) - fp)))
+    groups_b = [h.concretize(g) if h.mode == "sym" else int(g) for g in h.cells(B.groups)]
+    gcm = h.cells(B.group_cm(t).matrix)
+    for j, g in enumerate(groups_b):
+        want = _group_counts(h, bp, bn, bpg, bng, g, t, "neg", "pos")
+        h.check("per-group matrices of the sample = counting on the sample's rows of that group, under the sample's own decision rule",
+                h.And([h.eq(a, b) for a, b in zip(gcm[4 * j:4 * j + 4], want)]))
     if strat == "by_label":
         if method == "replacement":
             h.check("by_label keeps the class sizes", len(bp) == P and len(bn) == N)
@@ -184,6 +190,24 @@ def run_sampling(h, P, N, G, method, strat):
         h.check("replacement keeps the total sample count", len(bp) + len(bn) == P + N)
 
 
+def _check_sample(h, B, pos, neg, pg, ng, tag=""):
+    """a bootstrap sample of a (neg, pos) GroupScores: pairs are source pairs, order, overall and per-group matrices = counting"""
+    bp, bn, bpg, bng = h.cells(B.pos), h.cells(B.neg), h.cells(B.pos_groups), h.cells(B.neg_groups)
+    h.check(tag + "sample (score, label) pairs are source pairs of the same class", h.And(_subset_pairs(h, bp, bpg, pos, pg), _subset_pairs(h, bn, bng, neg, ng)))
+    h.check(tag + "sample scores ascending", h.And([h.le(a[i], a[i + 1], 0) for a in (bp, bn) for i in range(len(a) - 1)]))
+    t = h.real("t_probe")
+    got = h.cells(B.cm(t).matrix)
+    tp = h.count([accepted(h, "neg", "pos", s, t) for s in bp])
+    fp = h.count([accepted(h, "neg", "pos", s, t) for s in bn])
+    h.check(tag + "metrics of the sample equal direct counting", h.And(h.eq(got[0], tp), h.eq(got[1], len(bp) - tp), h.eq(got[2], fp), h.eq(got[3], len(bn) - fp)))
+    groups = [h.concretize(g) if h.mode == "sym" else int(g) for g in h.cells(B.groups)]
+    gcm = h.cells(B.group_cm(t).matrix)
+    for j, g in enumerate(groups):
+        want = _group_counts(h, bp, bn, bpg, bng, g, t, "neg", "pos")
+        h.check(tag + "per-group matrices of the SAMPLE = counting on the sample's rows of that group (sample's own decision rule)",
+                h.And([h.eq(a, b) for a, b in zip(gcm[4 * j:4 * j + 4], want)]))
+
+
 def run_dynamic(h):
     mod = h.sa.group_scores
     old = mod.SINGLE_PASS_SAMPLE_THRESHOLD
@@ -195,6 +219,16 @@ def run_dynamic(h):
                 m = gs._sampling_method(h.sa.BootstrapConfig(sampling_method="dynamic", stratified_sampling=strat))
                 want = "replacement" if (strat == "by_group" or P < 2 or N < 2) else "single_pass"
                 h.check("dynamic: single_pass only with enough scores per class and no group stratification", m == want)
+        # a sample drawn with the default 'dynamic' method on an object large enough for single pass
+        pos, neg = h.reals("dp", 2), h.reals("dn", 2)
+        for a in (pos, neg):
+            h.assume(a[0] <= a[1])
+        pg, ng = [0, 1], [1, 0]
+        gs = h.sa.GroupScores(h.array(pos), h.array(neg), pos_groups=pg, neg_groups=ng, score_class="neg", equal_class="pos", is_sorted=True)
+        h.policy(mult_cap=2)
+        for strat in ("by_label",):      # non-stratified single pass has symbolic drawn sizes: covered by the sampling items
+            B = gs.bootstrap_sample(h.sa.BootstrapConfig(sampling_method="dynamic", stratified_sampling=strat))
+            _check_sample(h, B, pos, neg, pg, ng, tag=f"[dynamic/{strat}] ")
     finally:
         mod.SINGLE_PASS_SAMPLE_THRESHOLD = old
 
